@@ -63,6 +63,31 @@ func GoroutineAlive(gid int64) bool {
 	return bytes.Contains(buf, []byte(fmt.Sprintf("goroutine %d [", gid)))
 }
 
+// GoroutineWaitReason returns the scheduler state of a goroutine as printed in a stack dump
+// ("running", "sync.Mutex.Lock", "chan receive", ...), or "" if it does not exist.
+func GoroutineWaitReason(gid int64) string {
+	buf := make([]byte, 1<<18)
+	for {
+		n := runtime.Stack(buf, true)
+		if n < len(buf) {
+			buf = buf[:n]
+			break
+		}
+		buf = make([]byte, 2*len(buf))
+	}
+	key := []byte(fmt.Sprintf("goroutine %d [", gid))
+	i := bytes.Index(buf, key)
+	if i < 0 {
+		return ""
+	}
+	rest := buf[i+len(key):]
+	j := bytes.IndexByte(rest, ']')
+	if j < 0 {
+		return ""
+	}
+	return string(rest[:j])
+}
+
 type MintProxy struct {
 	storage.MintDB // inner handle (embedded: unknown future methods pass through)
 
